@@ -8,6 +8,7 @@ import (
 	"fmt"
 	"verif/lib/ev"
 
+	"verif/lib/enum"
 	"verif/lib/maph"
 	"verif/lib/seqmc"
 )
@@ -32,6 +33,29 @@ func main() {
 				r.Report(ev.Violation{Sig: "family|large-map", Msg: msg, Replay: map[string]any{"family": "large-map", "keys": n, "pattern": pat}})
 			}
 		}
+	}
+	// long-history churn: ONE map, hundreds of thousands of calls over 12 keys (behaviour keyed to a
+	// count of operations: compaction after N deletes, counters that wrap), every result compared
+	{
+		n := ev.Pick(r, 150000, 2000000)
+		h := maph.New(12)
+		var g enum.LCG = 99
+		names := []string{"Load", "Load", "Store", "Store", "LoadOrStore", "LoadAndDelete", "LoadAndDelete", "Delete", "Load", "Store"}
+		for i := 0; i < n; i++ {
+			op := seqmc.Op{Name: names[g.Next(len(names))], A: g.Next(13), B: 1 + g.Next(2)}
+			if i%211 == 0 {
+				op = seqmc.Op{Name: "Range", A: g.Next(3)}
+			}
+			if ev.Tracing() {
+				ev.Trace(map[string]any{"family": "churn", "step": i, "op": op})
+			}
+			famCalls++
+			if f := h.Apply(op); f != nil {
+				r.Report(ev.Violation{Sig: "family|churn", Msg: fmt.Sprintf("call %d of a long single-goroutine history: %s", i, f.Msg), Replay: map[string]any{"family": "churn", "step": i}})
+				break
+			}
+		}
+		r.Set("churn_family_operations", n)
 	}
 	r.Set("large_size_family_calls", famCalls)
 	r.Set("states", res.States)
